@@ -216,10 +216,12 @@ def comparam_inheritance(shape):
     for name, kind, parents in CP_SHAPES[shape]:
         layers[name] = GhostLayer(name, kind)
     spec_a, spec_b = mk_spec("CP_A", "0"), mk_spec("CP_B", "0")
+    spec_a2 = mk_spec("CP_A", "1")  # a different parameter (other comparam subset) with the same short name
     defined = {}
     for name, kind, parents in CP_SHAPES[shape]:
         L = layers[name]
-        for (sid, spec, proto) in (("ID_A", spec_a, None), ("ID_A", spec_a, "UDS"), ("ID_B", spec_b, None)):
+        for (sid, spec, proto) in (("ID_A", spec_a, None), ("ID_A", spec_a, "UDS"), ("ID_B", spec_b, None),
+                                   ("ID_A2", spec_a2, None)):
             if H.bool(f"{name}_defines_{sid}_{proto}"):
                 ci = mk_instance(spec, sid, f"{name}:{sid}:{proto}", proto)
                 L.diag_layer_raw.comparam_refs.append(ci)
